@@ -107,13 +107,15 @@ def run_verus(world_path: str, unit: str, fn_names: list[str], cmap: dict, rlimi
         prim = [s for s in d.get("spans", []) if s.get("is_primary")]
         others = [s for s in d.get("spans", []) if not s.get("is_primary")]
         clause, line, at = None, prim[0]["line_start"] if prim else 0, None
-        # the span that sits on a named clause line tells which clause failed
-        for s in d.get("spans", []):
+        # the span labelled "failed this ..." (else the primary span) tells which clause failed
+        spans = d.get("spans", [])
+        cand = [s for s in spans if "failed" in (s.get("label") or "")] or prim
+        for s in cand:
             for ln in range(s["line_start"], s["line_end"] + 1):
-                if ln in cmap:
+                if ln in cmap and clause is None:
                     clause = cmap[ln]
-        for s in d.get("spans", []):
-            if s["line_start"] not in cmap:
+        for s in spans:
+            if s not in cand:
                 at = s["line_start"]
         if not any(k in low for k in OBLIGATION_MSG):
             res.reason = "unclassified verus error: " + msg[:300]
